@@ -1,5 +1,6 @@
 import IcyVerif.Lemmas.ArtAnsiCells
 import IcyVerif.Lemmas.ArtAnsiRows
+import IcyVerif.Lemmas.ArtAnsiXRows
 /-! # C04 — ANSI files written by the engine parse back to the same picture
 
 FULL STATEMENT (`ansi_rt`, not proved in this generality):
@@ -11,30 +12,48 @@ FULL STATEMENT (`ansi_rt`, not proved in this generality):
       `show (load .ansi sauce (writeAnsi o p)) = show p`
   where `show` = per cell (glyph, displayed foreground RGB, background RGB, blink).
 
-PROVED (for ALL pictures of the stated shape — induction over rows and cells; the simulation relation between the
-writer's `AnsiState` and the reader's caret attribute is `RelS`, its preservation through every block of `get_color`
-is `sgr_sync` in Lemmas/ArtAnsiSgr.lean):
-  * `ansi_rt_partial₃` — ALL 2^5 combinations of compress / cursor forward / repeat sequences / preserved line length /
-    longer-terminal positioning (`CSI y H` in front of every row instead of line breaks; then at most 999 rows), extended colours on or off, all three screen preparations, all three control-character modes (over the characters the
-    mode can encode), 16 foreground x 8 background DOS colours, every attribute flag the writer emits (bold, faint, italic,
-    underline, blink, concealed, crossed out, double underline), ALL THREE ice modes (blink / unlimited: 8 background colours;
-    iCE: 16 background colours, no blink flag), width 80 — or any width 1..=132 carried by SAUCE (`SauceFits`).
-    Conclusion `ShowsEq`: every cell of the picture is SHOWN by the loaded picture
-    (`ShowEq`: same character up to the blank glyphs NUL / space / 0xFF, same displayed foreground colour unless the glyph
-    is blank, same background colour, same blink state).  Ingredients: `sgr_sync_16` (SGR state tracking), `subst_sound`
+PROVED (for ALL pictures of the stated shape — induction over rows and cells):
+  * `ansi_rt_partial₄` — the round trip for ALL COLOURS a buffer can hold.  The picture's palette is arbitrary (any number of
+    entries; the 16 base colours may have been replaced), every cell's foreground and background are arbitrary colour indices
+    resolved through it (`Palette::get_rgb`: out of range = black), so DOS colours, xterm-256 colours (`38;5;n` / `48;5;n`
+    when extended colours are on), every other RGB value (`CSI 1;r;g;b t` / `CSI 0;r;g;b t`), bright backgrounds in blink /
+    unlimited mode and custom base palettes are all covered; extended colours on or off; ALL 2^5 combinations of compress /
+    cursor forward / repeat sequences / preserved line length / longer-terminal positioning (then at most 999 rows); all
+    three screen preparations; all three control-character modes (over the characters the mode can encode); every attribute
+    flag the writer emits; ALL THREE ice modes (in iCE mode cells do not blink); width 80 or any SAUCE width 1..=132; up
+    to 1 000 000 rows (so that the loaded palette's indices stay below 2^31, where `get_rgb` reads them as indices).
+    Conclusion `ShowsEqX`: every cell of the picture is SHOWN by the loaded picture, each through its own palette
+    (`ShowEqX`: same character up to the blank glyphs NUL / space / 0xFF, same displayed foreground RGB unless the glyph is
+    blank — bold low colour = bright colour —, same background RGB, same blink state).
+    The simulation relation `RelX` (Lemmas/ArtAnsiXSgr.lean) relates the writer's `AnsiState` to the reader's caret
+    attribute AND palette in RGB terms; its preservation through every block of `get_color` is `sgr_sync_all`.  The key
+    palette facts: `insert_resolves` (`insert_color` of the RGB the writer emitted resolves to that RGB, earlier indices
+    stay valid, the DOS prefix is never touched) and `xterm_lookup_sound` (the writer's xterm-256 hash lookup returns an
+    index 0..=255 of the regenerated table that holds exactly the colour — so `38;5;n` is read back as the same RGB).
+    SGR groups are read before 24-bit commands, so foreground and background actions may happen in either order
+    (`chain_order`); both orders are covered.  `subst_sound_all`, `trim_sound_all` are the colour versions of the
+    substitution and trimming lemmas.
+    TWO DEFECTS were found while proving it (both repaired in the repository, see known_findings.txt): SGR 1 brightened
+    the wrong colour when a palette slot below 8 held another DOS colour (`state.fg_idx` was the palette slot, not the DOS
+    colour the terminal is on); blanks on colour 0 were skipped / trimmed although the palette's colour 0 was not black.
+  * `ansi_rt_partial₃` — the same option lattice on the DOS palette only (16 foreground x 8 background colours, 16
+    backgrounds in iCE mode) with the stronger conclusion `ShowsEq`: equal colour INDICES.
+    Ingredients: `sgr_sync_16` (SGR state tracking), `subst_sound`
     (the RLE scan with cursor-forward and repeat substitution drives the reader through "items": printed cells, or
     skipped cells that are spaces on colour 0, not blinking, and never in the last column), `trim_sound` (everything
     the end-of-line trimming drops is a blank on colour 0 that does not blink; a row keeps all its cells or at least
     two fewer, so the one-blank line break never occurs), the line-break lemma (`rows_comp`) and its `CSI y H` counterpart
     (`rows_longer`), the general crop lemma
     (`crop_view`: `crop_loaded_file` only removes rows that show nothing).
-  * `ansi_rt_partial₁` — compress = false only, blink / unlimited mode, width 80, but the stronger conclusion `ShowsAll … ansiImg`: EVERY
+  * `ansi_rt_partial₁` — compress = false only, blink / unlimited mode, width 80, DOS palette, but the stronger conclusion `ShowsAll … ansiImg`: EVERY
     loaded cell IS the saved cell with the bold attribute folded into the bright colour (same character code, colour
     indices, blink and extended attributes), and the height is preserved.
-  Both under the hypothesis that the file does not start with EF BB BF (known finding `ans:utf8-bom-prefix`,
+  All under the hypothesis that the file does not start with EF BB BF (known finding `ans:utf8-bom-prefix`,
   `bom_counterexample`).
-NOT under a theorem (exhaustive option-lattice correspondence + oracle only): xterm-256 / RGB colours and backgrounds
-8..15 outside iCE mode (would be `ansi_rt_partial₂`), the colour optimiser (C12).
+WHAT KEEPS `ansi_rt_partial₄` FROM BEING `ansi_rt`: the BOM hypothesis (a genuine defect, recorded); `output_line_length`
+(CSI s / CR LF / CSI u line splitting), font pages other than 0 and sixels are not in the writer model; the colour
+optimiser (`lossles_output = false`, `normalize_whitespaces`) is C12's subject (the harness hands the writer model the
+optimised picture); the overline / invisible attribute bits, which the writer never emits, are excluded.
 -/
 set_option linter.unusedSimpArgs false
 namespace IcyVerif.C04
@@ -329,13 +348,13 @@ theorem ansi_rt_partial₃ (o : AnsiOpts) (p : Pic) (sauce : Option Sauce) (hs :
   have hshown : itemsShown irows x y = prImg (p.get x y) ∨ (itemsShown irows x y = defaultCell ∧ TrimCell (p.get x y)) := by
     unfold itemsShown
     rw [R1.length_eq]
-    by_cases hxl : x < ansiRowLen o p.w (p.rows.getD y [])
+    by_cases hxl : x < ansiRowLen o dosPalette p.w (p.rows.getD y [])
     · have hc : y < p.rows.length ∧ x < (irows.getD y []).length := ⟨hy, by rw [G1]; exact hxl⟩
       rw [if_pos hc]
-      have htl : ((p.rows.getD y []).take (ansiRowLen o p.w (p.rows.getD y []))).length = ansiRowLen o p.w (p.rows.getD y []) := by
+      have htl : ((p.rows.getD y []).take (ansiRowLen o dosPalette p.w (p.rows.getD y []))).length = ansiRowLen o dosPalette p.w (p.rows.getD y []) := by
         rw [List.length_take, hrl]; omega
-      have hget : ((p.rows.getD y []).take (ansiRowLen o p.w (p.rows.getD y []))).getD x defaultCell = p.get x y := by
-        show ((p.rows.getD y []).take (ansiRowLen o p.w (p.rows.getD y []))).getD x defaultCell = (p.rows.getD y []).getD x defaultCell
+      have hget : ((p.rows.getD y []).take (ansiRowLen o dosPalette p.w (p.rows.getD y []))).getD x defaultCell = p.get x y := by
+        show ((p.rows.getD y []).take (ansiRowLen o dosPalette p.w (p.rows.getD y []))).getD x defaultCell = (p.rows.getD y []).getD x defaultCell
         rw [List.getD_eq_getElem?_getD, List.getElem?_take, if_pos hxl, ← List.getD_eq_getElem?_getD]
       rcases G2 x (by rw [htl]; exact hxl) with h | ⟨h1, h2, _⟩
       · left
@@ -375,6 +394,200 @@ theorem ansi_rt_partial₃ (o : AnsiOpts) (p : Pic) (sauce : Option Sauce) (hs :
       exact showEq_blank _ _ ⟨Or.inl hch, hbg, hbl⟩ (Or.inr rfl)
     · exact showEq_blank _ _ ht (Or.inr rfl)
 
+/-! ### ALL colours: custom palettes, xterm-256, 24-bit, bright backgrounds in every ice mode (`ansi_rt_partial₄`) -/
+
+/-- what C04 compares, in colours: the saved cell `c` seen through the picture's palette `pal` and the loaded cell `l` seen
+    through the loaded palette `Lpal` show the same — the same character (NUL, space and 0xFF are the same blank glyph),
+    the same displayed foreground RGB unless the glyph is blank (bold low colour = bright colour), the same background
+    RGB, the same blink state.  `getRgb` is `Palette::get_rgb`. -/
+def ShowEqX (pal Lpal : List Rgb) (c l : Cell) : Prop :=
+  (l.ch = c.ch ∨ (Blank c.ch ∧ l.ch = 32)) ∧ (¬ Blank c.ch → getRgb Lpal (dispFg l.attr) = getRgb pal (dispFg c.attr)) ∧
+  getRgb Lpal l.attr.bg = getRgb pal c.attr.bg ∧ l.attr.fl.blink = c.attr.fl.blink
+
+/-- every cell of the picture is shown by the loaded picture, each through its own palette -/
+def ShowsEqX (L : Loaded) (p : Pic) : Prop :=
+  L.stuck = false ∧ L.w = p.w ∧ ∀ x y, x < p.w → y < p.rows.length → ShowEqX p.pal L.pal (p.get x y) (L.cellAt x y)
+
+theorem showEqX_of_disp {pal P : List Rgb} {c l l' : Cell} (h : Disp pal P c l) (hlen : P.length ≤ 2147483648)
+    (e1 : l'.ch = l.ch) (e2 : l'.attr.fg = l.attr.fg) (e3 : l'.attr.bg = l.attr.bg) (e4 : l'.attr.fl.bold = l.attr.fl.bold)
+    (e5 : l'.attr.fl.blink = l.attr.fl.blink) : ShowEqX pal P c l' := by
+  obtain ⟨h1, _, h3, h4, h5, h6, h7⟩ := h
+  have ed : dispFg l'.attr = dispFg l.attr := by unfold dispFg; rw [e2, e4]
+  refine ⟨Or.inl (by rw [e1, h1]), fun _ => ?_, ?_, by rw [e5, h7]⟩
+  · rw [ed, getRgb_eq_pget _ _ (by omega), h5]
+  · rw [e3, getRgb_eq_pget _ _ (by omega), h6]
+
+theorem showEqX_blank {pal P : List Rgb} {c l : Cell} (ht : TrimCellX pal c) (hp : DosPre P) (hl : l = defaultCell ∨ l = invisibleCell) :
+    ShowEqX pal P c l := by
+  obtain ⟨h1, h2, h3⟩ := ht
+  have hb : getRgb P 0 = (0, 0, 0) := by
+    rw [getRgb_eq_pget _ _ (by omega), hp.get (by omega)]; decide
+  rcases hl with e | e <;> subst e
+  · exact ⟨Or.inr ⟨h1, rfl⟩, fun hn => absurd h1 hn, by rw [h2]; exact hb, h3.symm⟩
+  · exact ⟨Or.inr ⟨h1, rfl⟩, fun hn => absurd h1 hn, by rw [h2]; exact hb, h3.symm⟩
+
+theorem initial_pal (sauce : Option Sauce) : (initial .ansi sauce).core.pal = dosPalette := by
+  cases sauce <;> rfl
+
+theorem ansi_end_pal (im : IceMode) (p : AnsiP) (core : Core) (ns : core.stuck = false) (ag : p.st = .ground) :
+    (ansiRun p core (ansiEnd im)).2.pal = core.pal := by
+  unfold ansiEnd
+  by_cases him : im = .ice
+  · rw [if_pos him]
+    have e : ansiRun p core [27, 91, 63, 51, 51, 108] = ({ p with st := .ground }, { core with caretIce := false }) := by
+      simp [ansiRun, ansiStep, ns, ag, isDigit, numsDigit, parseNextNumber, i32Max]
+    rw [e]
+  · rw [if_neg him]; rfl
+
+theorem relX_initial (ic : Bool) : RelX ic ansiState0.isBlink ansiState0 defaultAttr dosPalette :=
+  relX_default ic ansiState0 dosPalette dosPre_refl
+
+/-- **C04, fourth theorem**: as the third, for ALL colours a buffer can hold.  The picture's palette is arbitrary (any
+    number of entries, the 16 base colours may have been replaced), every cell's foreground and background are arbitrary
+    colour indices resolved through it (`Palette::get_rgb`: out of range = black), so xterm-256 colours (`38;5;n` /
+    `48;5;n` with extended colours), any other RGB value (`CSI 1/0;r;g;b t`) and bright backgrounds in blink / unlimited
+    mode are covered, with extended colours on or off, under every combination of compression, cursor forward, repeat
+    sequences, preserved line length and longer-terminal positioning, every screen preparation and control-character mode,
+    in all three ice modes (in iCE mode cells do not blink).  Conclusion: every cell is shown by the loaded picture with
+    the same displayed RGB values, each picture seen through its own palette. -/
+theorem ansi_rt_partial₄ (o : AnsiOpts) (p : Pic) (sauce : Option Sauce) (hs : SauceFits sauce p)
+    (hlh : o.longerTerminalOutput = true → p.rows.length ≤ 999) (hrows : p.rows.length ≤ 1000000)
+    (hpal : PalBytes p.pal) (hfull : Pic.Full p) (hdom : p.AllCells (CellDomX o (decide (p.ice = .ice))))
+    (hbom : bomPrefixed (writeAnsi o p) = false) :
+    ShowsEqX (load .ansi sauce (writeAnsi o p)) p := by
+  obtain ⟨H, i1, i2, i3, i4, i5, i6, hw1, hw2⟩ := initial_ansi sauce p hs
+  have hpad : (p.rows.map fun r => r ++ List.replicate (p.w - r.length) defaultCell) = p.rows := by
+    have : ∀ r ∈ p.rows, r ++ List.replicate (p.w - r.length) defaultCell = r := by
+      intro r hr; rw [hfull r hr]; simp
+    calc (p.rows.map fun r => r ++ List.replicate (p.w - r.length) defaultCell) = p.rows.map id :=
+          List.map_congr_left this
+      _ = p.rows := List.map_id _
+  have hbytes : writeAnsi o p = ansiPrep o p.ice ++ genLines o p.w p.rows.length (genCells o p.pal p.ice p.w p.rows ansiState0) 0 true
+      ++ ansiEnd p.ice := by
+    unfold writeAnsi
+    simp only [hpad]
+  have hload : load .ansi sauce (writeAnsi o p) = finish .ansi (run .ansi (initial .ansi sauce) (writeAnsi o p)) := by
+    unfold load; rw [if_neg (by decide), convertText_of_noBom hbom]
+  obtain ⟨c1, c2⟩ := ansi_prep_core o p.ice (initial .ansi sauce).ansi (initial .ansi sauce).core i2 i3 (by rw [i1]; exact ⟨rfl, rfl, rfl⟩)
+  have hpal1 : (ansiRun (initial .ansi sauce).ansi (initial .ansi sauce).core (ansiPrep o p.ice)).2.pal = dosPalette := by
+    rw [c1]; split <;> exact initial_pal sauce
+  have hcinv : CInvX (decide (p.ice = .ice)) (defaultAttr, dosPalette) p.w (ansiRun (initial .ansi sauce).ansi (initial .ansi sauce).core (ansiPrep o p.ice)).1
+      (ansiRun (initial .ansi sauce).ansi (initial .ansi sauce).core (ansiPrep o p.ice)).2 := by
+    refine ⟨?_, hpal1⟩
+    rw [c1]
+    by_cases him : p.ice = .ice
+    · rw [if_pos him]
+      exact ⟨i2, c2, by simp [him], i4, by show (initial .ansi sauce).core.scr.w = p.w; rw [i1]; rfl, i6⟩
+    · rw [if_neg him]
+      have hci : (initial .ansi sauce).core.caretIce = false := by
+        cases hq : (initial .ansi sauce).core.caretIce with
+        | false => rfl
+        | true => exact absurd (i5 hq) him
+      exact ⟨i2, c2, by simp [him, hci], i4, by rw [i1]; rfl, i6⟩
+  have hscr1 : (ansiRun (initial .ansi sauce).ansi (initial .ansi sauce).core (ansiPrep o p.ice)).2.scr = freshScreen p.w H := by
+    rw [c1]; split <;> exact i1
+  have hfin : ∃ (irows : List (List (Option Cell))) (Pf : List Rgb), RowsOkX o p.pal Pf p.w p.rows irows ∧ DosPre Pf ∧
+      Pf.length ≤ 16 + 2 * p.w * p.rows.length ∧
+      (run .ansi (initial .ansi sauce) (writeAnsi o p)).core.stuck = false ∧
+      (finish .ansi (run .ansi (initial .ansi sauce) (writeAnsi o p))).pal = Pf ∧
+      (finish .ansi (run .ansi (initial .ansi sauce) (writeAnsi o p))).w = p.w ∧
+      (finish .ansi (run .ansi (initial .ansi sauce) (writeAnsi o p))).stuck = (run .ansi (initial .ansi sauce) (writeAnsi o p)).core.stuck ∧
+      ∀ x y, x < p.w →
+        ((finish .ansi (run .ansi (initial .ansi sauce) (writeAnsi o p))).cellAt x y = foldBold (itemsShown irows x y) ∨
+         ((finish .ansi (run .ansi (initial .ansi sauce) (writeAnsi o p))).cellAt x y = invisibleCell ∧ itemsShown irows x y = defaultCell)) := by
+    have hfp : ∀ rs : RS, (finish .ansi rs).pal = rs.core.pal := by
+      intro rs; unfold finish; rw [if_neg (by decide)]
+    cases hl : o.longerTerminalOutput with
+    | false =>
+      obtain ⟨irows, Rf, R1, Rp, Rl, R2, R3, Rpal, R4⟩ := rows_compX o p.pal hpal p.ice (decide (p.ice = .ice)) rfl p.w p.rows.length (by omega) (by omega) hl p.rows
+        ansiState0 (defaultAttr, dosPalette) 0 true _ _ hfull hdom (relX_initial _) hcinv (fun _ => by rw [hscr1]; rfl) (by omega)
+      have hrun : (run .ansi (initial .ansi sauce) (writeAnsi o p)).core.scr = picItems p.w irows (freshScreen p.w H) ∧
+          (run .ansi (initial .ansi sauce) (writeAnsi o p)).core.stuck = false ∧
+          (run .ansi (initial .ansi sauce) (writeAnsi o p)).core.pal = Rf.2 := by
+        rw [run_ansi_eq, hbytes, ansiRun_append, ansiRun_append]
+        obtain ⟨e1, e2⟩ := ansi_end_core p.ice _ _ R3 R4
+        have e3 := ansi_end_pal p.ice _ _ R3 R4
+        exact ⟨by show (ansiRun _ _ (ansiEnd p.ice)).2.scr = _; rw [e1, R2, hscr1], e2, by show (ansiRun _ _ (ansiEnd p.ice)).2.pal = _; rw [e3, Rpal]⟩
+      obtain ⟨hrun, hstuck, hrpal⟩ := hrun
+      have hfits := R1.fits (by omega) hfull
+      obtain ⟨F1, F2, F3⟩ := finish_items .ansi (by decide) _ p.w H irows (by omega) (by omega) hfits hrun
+      refine ⟨irows, Rf.2, R1, DosPre.mono dosPre_refl Rp, ?_, hstuck, by rw [hfp, hrpal], F1, F2, F3⟩
+      have : ([] ++ dosPalette : List Rgb).length = 16 := by decide
+      have h16 : (defaultAttr, dosPalette).2.length = 16 := by decide
+      rw [h16] at Rl; exact Rl
+    | true =>
+      obtain ⟨irows, Rf, R1, Rp, Rl, R2, R3, Rpal, R4⟩ := rows_longerX o p.pal hpal p.ice (decide (p.ice = .ice)) rfl p.w p.rows.length (by omega) (by omega) (hlh hl) hl p.rows
+        ansiState0 (defaultAttr, dosPalette) 0 true _ _ hfull hdom (relX_initial _) hcinv (fun _ => rfl) (by omega)
+      have hrun : (run .ansi (initial .ansi sauce) (writeAnsi o p)).core.scr = picItemsL irows 0 (freshScreen p.w H) ∧
+          (run .ansi (initial .ansi sauce) (writeAnsi o p)).core.stuck = false ∧
+          (run .ansi (initial .ansi sauce) (writeAnsi o p)).core.pal = Rf.2 := by
+        rw [run_ansi_eq, hbytes, ansiRun_append, ansiRun_append]
+        obtain ⟨e1, e2⟩ := ansi_end_core p.ice _ _ R3 R4
+        have e3 := ansi_end_pal p.ice _ _ R3 R4
+        exact ⟨by show (ansiRun _ _ (ansiEnd p.ice)).2.scr = _; rw [e1, R2, hscr1], e2, by show (ansiRun _ _ (ansiEnd p.ice)).2.pal = _; rw [e3, Rpal]⟩
+      obtain ⟨hrun, hstuck, hrpal⟩ := hrun
+      have hfits := R1.fits (by omega) hfull
+      obtain ⟨F1, F2, F3⟩ := finish_itemsL .ansi (by decide) _ p.w H irows (by omega) (by omega) hfits hrun
+      refine ⟨irows, Rf.2, R1, DosPre.mono dosPre_refl Rp, ?_, hstuck, by rw [hfp, hrpal], F1, F2, F3⟩
+      have h16 : (defaultAttr, dosPalette).2.length = 16 := by decide
+      rw [h16] at Rl; exact Rl
+  obtain ⟨irows, Pf, R1, hdp, hlen, hstuck, hLpal, F1, F2, F3⟩ := hfin
+  -- the loaded palette is far below 2^31 entries: its indices are palette indices for `get_rgb`
+  have hbig : Pf.length ≤ 2147483648 := by
+    have h1 : 2 * p.w * p.rows.length ≤ 2 * 132 * 1000000 := Nat.mul_le_mul (Nat.mul_le_mul_left 2 hw2) hrows
+    omega
+  rw [hload]
+  refine ⟨by rw [F2]; exact hstuck, F1, ?_⟩
+  intro x y hx hy
+  rw [hLpal]
+  have hrow : p.rows.getD y [] ∈ p.rows := mem_of_getD_lt hy
+  have hrl : (p.rows.getD y []).length = p.w := hfull _ hrow
+  obtain ⟨G1, G2⟩ := R1.get y hy
+  obtain ⟨l1, l2, l3⟩ := ansiRowLen_specX o p.pal p.w (by omega) (p.rows.getD y [])
+  -- what the layer shows at (x, y), by cases: printed, skipped, trimmed
+  have hshown : (∃ l, itemsShown irows x y = l ∧ Disp p.pal Pf (p.get x y) l) ∨ (itemsShown irows x y = defaultCell ∧ TrimCellX p.pal (p.get x y)) := by
+    unfold itemsShown
+    rw [R1.length_eq]
+    by_cases hxl : x < ansiRowLen o p.pal p.w (p.rows.getD y [])
+    · have hc : y < p.rows.length ∧ x < (irows.getD y []).length := ⟨hy, by rw [G1]; exact hxl⟩
+      rw [if_pos hc]
+      have htl : ((p.rows.getD y []).take (ansiRowLen o p.pal p.w (p.rows.getD y []))).length = ansiRowLen o p.pal p.w (p.rows.getD y []) := by
+        rw [List.length_take, hrl]; omega
+      have hget : ((p.rows.getD y []).take (ansiRowLen o p.pal p.w (p.rows.getD y []))).getD x defaultCell = p.get x y := by
+        show ((p.rows.getD y []).take (ansiRowLen o p.pal p.w (p.rows.getD y []))).getD x defaultCell = (p.rows.getD y []).getD x defaultCell
+        rw [List.getD_eq_getElem?_getD, List.getElem?_take, if_pos hxl, ← List.getD_eq_getElem?_getD]
+      rcases G2 x (by rw [htl]; exact hxl) with ⟨l, h, hd⟩ | ⟨h1, h2, _⟩
+      · left
+        rw [h, hget] at *
+        refine ⟨l, ?_, hd⟩
+        show shown l = l
+        apply shown_of_visible
+        unfold Cell.isVisible; rw [hd.vis]; rfl
+      · right
+        rw [h1, hget] at *
+        exact ⟨rfl, skip_trimX h2⟩
+    · have hc : ¬ (y < p.rows.length ∧ x < (irows.getD y []).length) := by
+        intro ⟨_, h2⟩; rw [G1] at h2; exact hxl h2
+      rw [if_neg hc]
+      right
+      refine ⟨rfl, ?_⟩
+      rcases l3 with e | ⟨_, ht⟩
+      · omega
+      · exact ht x (by omega) (by omega)
+  rcases F3 x y hx with e | ⟨e1, e2⟩
+  · rw [e]
+    rcases hshown with ⟨l, h, hd⟩ | ⟨h, ht⟩
+    · rw [h]
+      exact showEqX_of_disp hd.fold hbig rfl rfl rfl rfl rfl
+    · rw [h, foldBold_default]; exact showEqX_blank ht hdp (Or.inl rfl)
+  · rw [e1]
+    rcases hshown with ⟨l, h, hd⟩ | ⟨_, ht⟩
+    · -- the cell was printed, yet its row was cropped: then it was printed as a default blank
+      rw [e2] at h
+      subst h
+      exact showEqX_of_disp hd hbig rfl rfl rfl rfl rfl
+    · exact showEqX_blank ht hdp (Or.inr rfl)
+
 /-- the simulation step the theorem rests on, restated here so that the axiom audit covers it: after the SGR parameters
     `get_color` emits for a cell the reader's attribute is the cell's rendition, the new writer state is again related
     to it, every parameter is one the reader accepts, and no 24-bit colour command is needed -/
@@ -404,10 +617,54 @@ theorem subst_sound (o : AnsiOpts) (ic : Bool) (w : Nat) (hw : w ≤ 999) (fuel 
 
 /-- `trim_sound`: what `generate_cells` drops at the end of a row -/
 theorem trim_sound (o : AnsiOpts) (w : Nat) (hw : 0 < w) (row : List Cell) :
-    1 ≤ ansiRowLen o w row ∧ ansiRowLen o w row ≤ w ∧
-    (ansiRowLen o w row = w ∨
-      (ansiRowLen o w row + 2 ≤ w ∧ ∀ i, ansiRowLen o w row ≤ i → i < w → TrimCell (row.getD i defaultCell))) :=
+    1 ≤ ansiRowLen o dosPalette w row ∧ ansiRowLen o dosPalette w row ≤ w ∧
+    (ansiRowLen o dosPalette w row = w ∨
+      (ansiRowLen o dosPalette w row + 2 ≤ w ∧ ∀ i, ansiRowLen o dosPalette w row ≤ i → i < w → TrimCell (row.getD i defaultCell))) :=
   ansiRowLen_spec o w hw row
+
+/-- `sgr_sync` for all colours, restated here so that the axiom audit covers it: after everything `get_color` emits for a
+    cell (SGR parameters incl. `38;5;n` / `48;5;n`, 24-bit commands) the reader — `rdPre` = `select_graphic_rendition`
+    followed by `select_24bit_color`, acting on caret attribute and palette — is again in step with the writer's state
+    (`RelX`: the reader's colour indices resolve, in ITS palette, to the colours the state records), the state records the
+    cell's displayed colours, the palette only grew (by at most two entries) and every parameter is below 1000 -/
+theorem sgr_sync_all (o : AnsiOpts) (pal : List Rgb) (hpal : PalBytes pal) (im : IceMode) (attr : Attr)
+    (ha : AttrX (decide (im = .ice)) attr) (st : AnsiState) (A0 : Attr) (P0 : List Rgb)
+    (h : RelX (decide (im = .ice)) st.isBlink st A0 P0) :
+    SyncX (decide (im = .ice)) pal attr P0 (getColor o pal im attr st)
+      (rdPre (A0, P0) (getColor o pal im attr st).2.1 (getColor o pal im attr st).2.2) :=
+  sgr_syncX o pal hpal im attr ha st A0 P0 h
+
+/-- the palette lemma the colour round trip rests on: `Palette::insert_color` returns an index inside the (possibly
+    extended) palette that resolves to the inserted colour, the old entries keep their positions, at most one entry is added -/
+theorem insert_resolves (P : List Rgb) (c : Rgb) :
+    (insertColor P c).2 < (insertColor P c).1.length ∧ pget (insertColor P c).1 (insertColor P c).2 = c ∧
+    P <+: (insertColor P c).1 ∧ (insertColor P c).1.length ≤ P.length + 1 :=
+  ⟨insertColor_lt P c, insertColor_get P c, insertColor_prefix P c, insertColor_len P c⟩
+
+/-- the writer's xterm-256 lookup (a hash map filled from the regenerated `XTERM_256_PALETTE`) only ever returns a table
+    index 0..=255 whose entry is exactly the colour asked for — so the reader's `XTERM_256_PALETTE[n]` is that colour -/
+theorem xterm_lookup_sound (useExt : Bool) (c : Rgb) (e : Nat) (h : xtermIndex useExt c = some e) :
+    e ≤ 255 ∧ xtermPalette.getD e (0, 0, 0) = c :=
+  xtermIndex_spec useExt c e h
+
+/-- `subst_sound` for all colours: the line loop with RLE / cursor-forward / repeat substitution makes the reader perform one
+    item per cell — a printed cell that SHOWS what the saved cell shows (`Disp`), or a skip over a space on a black
+    background that does not blink, away from the margin -/
+theorem subst_sound_all (o : AnsiOpts) (ic : Bool) (pal : List Rgb) (w : Nat) (hw : w ≤ 999) (fuel : Nat) (cells : List Cell)
+    (line : List CharCell) (R Re : RdSt) (x : Nat) (p : AnsiP) (core : Core) (h1 : line.length ≤ fuel)
+    (h2 : LineOkX o ic pal R cells line Re) (h3 : x + cells.length ≤ w) (h4 : CInvX ic R w p core) (h5 : cells ≠ [] → core.scr.cx = x) :
+    ∃ items : List (Option Cell), items.length = cells.length ∧ ItemsOkX pal Re.2 x w cells items ∧
+      (ansiRun p core (genLine o w fuel x line)).2.scr = core.scr.runItems items ∧
+      CInvX ic Re w (ansiRun p core (genLine o w fuel x line)).1 (ansiRun p core (genLine o w fuel x line)).2 :=
+  genLine_itemsX o ic pal w hw fuel cells line R Re x p core h1 h2 h3 h4 h5
+
+/-- `trim_sound` on an arbitrary palette: what `generate_cells` drops at the end of a row is blank, on a BLACK background
+    (colour 0 of a palette whose colour 0 is black) and does not blink -/
+theorem trim_sound_all (o : AnsiOpts) (pal : List Rgb) (w : Nat) (hw : 0 < w) (row : List Cell) :
+    1 ≤ ansiRowLen o pal w row ∧ ansiRowLen o pal w row ≤ w ∧
+    (ansiRowLen o pal w row = w ∨
+      (ansiRowLen o pal w row + 2 ≤ w ∧ ∀ i, ansiRowLen o pal w row ≤ i → i < w → TrimCellX pal (row.getD i defaultCell))) :=
+  ansiRowLen_specX o pal w hw row
 
 /-! ### non-vacuity -/
 
@@ -459,6 +716,48 @@ example : SauceFits (some ⟨40, 2, true⟩) icePic ∧ Pic.Full icePic ∧ iceP
 /-- the bold low colour of the second cell is written as `1;…;31` and comes back as colour 12 without the bold flag -/
 example : (load .ansi none (writeAnsi demoOpts demoPic)).cellAt 1 0 = ⟨66, ⟨12, 1, { underline := true }⟩⟩ := by
   decide +kernel
+
+/-- a picture for the fourth theorem: a CUSTOM base palette (slot 3 holds DOS red, slot 0 stays black), two extra palette
+    entries (xterm-256 colour 255 and an RGB value in no table); cells: the custom slot, a bright colour right after it,
+    a blinking cell on a bright background outside iCE mode with the xterm colour, a bold cell with the RGB colour on the
+    xterm colour, then blanks -/
+def xPal : List Rgb := (dosPalette.set 3 (170, 0, 0)) ++ [(238, 238, 238), (1, 2, 3)]
+def xRow : List Cell :=
+  [⟨65, ⟨3, 0, {}⟩⟩, ⟨66, ⟨11, 0, {}⟩⟩, ⟨67, ⟨16, 12, { blink := true }⟩⟩, ⟨68, ⟨17, 16, { bold := true }⟩⟩] ++
+    List.replicate 76 ⟨32, ⟨7, 0, {}⟩⟩
+def xPic : Pic := { w := 80, rows := [xRow], ice := .unlimited, pal := xPal }
+
+example : SauceFits none xPic ∧ (({} : AnsiOpts).longerTerminalOutput = true → xPic.rows.length ≤ 999) ∧ xPic.rows.length ≤ 1000000 ∧
+    PalBytes xPic.pal ∧ Pic.Full xPic ∧ xPic.AllCells (CellDomX {} (decide (xPic.ice = .ice))) ∧
+    bomPrefixed (writeAnsi {} xPic) = false := by
+  refine ⟨Or.inl ⟨rfl, rfl⟩, fun _ => by decide, by decide, ?_, ?_, ?_, ?_⟩
+  · unfold PalBytes; decide +kernel
+  · unfold Pic.Full; decide +kernel
+  · simp only [Pic.AllCells, CellDomX, AttrX, EncDom, AnsiPrintable]; decide +kernel
+  · decide +kernel
+
+/-- what is written for it: `ESC[31m A ESC[1;36m B ESC[0;5;38;5;255;48;5;12m C …` and a 24-bit command for (1,2,3); what
+    comes back shows the same colours through the reader's own palette (DOS palette + the two inserted colours) -/
+example : (writeAnsi {} xPic).take 14 = [27, 91, 51, 49, 109, 65, 27, 91, 49, 59, 51, 54, 109, 66] ∧
+    (load .ansi none (writeAnsi {} xPic)).pal = dosPalette ++ [(238, 238, 238), (1, 2, 3)] ∧
+    getRgb (load .ansi none (writeAnsi {} xPic)).pal (dispFg ((load .ansi none (writeAnsi {} xPic)).cellAt 0 0).attr) = (170, 0, 0) ∧
+    getRgb (load .ansi none (writeAnsi {} xPic)).pal (dispFg ((load .ansi none (writeAnsi {} xPic)).cellAt 1 0).attr) = (85, 255, 255) ∧
+    getRgb (load .ansi none (writeAnsi {} xPic)).pal (dispFg ((load .ansi none (writeAnsi {} xPic)).cellAt 2 0).attr) = (238, 238, 238) ∧
+    getRgb (load .ansi none (writeAnsi {} xPic)).pal ((load .ansi none (writeAnsi {} xPic)).cellAt 2 0).attr.bg = (255, 85, 85) ∧
+    ((load .ansi none (writeAnsi {} xPic)).cellAt 2 0).attr.fl.blink = true ∧
+    getRgb (load .ansi none (writeAnsi {} xPic)).pal (dispFg ((load .ansi none (writeAnsi {} xPic)).cellAt 3 0).attr) = (1, 2, 3) ∧
+    getRgb (load .ansi none (writeAnsi {} xPic)).pal ((load .ansi none (writeAnsi {} xPic)).cellAt 3 0).attr.bg = (238, 238, 238) := by
+  refine ⟨?_, ?_, ?_, ?_, ?_, ?_, ?_, ?_, ?_⟩ <;> decide +kernel
+
+/-- the same picture with extended colours switched off is written with 24-bit commands only (`CSI 1;238;238;238 t`) and
+    satisfies the hypotheses as well -/
+example : xPic.AllCells (CellDomX { useExtendedColors := false } (decide (xPic.ice = .ice))) ∧
+    bomPrefixed (writeAnsi { useExtendedColors := false } xPic) = false ∧
+    ¬ (38 ∈ ((writeAnsi { useExtendedColors := false } xPic).take 60)) := by
+  refine ⟨?_, ?_, ?_⟩
+  · simp only [Pic.AllCells, CellDomX, AttrX, EncDom, AnsiPrintable]; decide +kernel
+  · decide +kernel
+  · decide +kernel
 
 /-- the known finding at model level: the UTF-8 BOM misdetection also hits ANSI files -/
 def bomPic : Pic :=
